@@ -2,6 +2,7 @@
 from __future__ import annotations
 
 import io
+import os
 import itertools
 
 from hypothesis import strategies as st
@@ -171,11 +172,31 @@ def check_case(case):
     lay = _layout_key(case)
     nonascii = any(ord(c) > 0x7F for c in case["body"])
     suffix = lay + ("/non-ascii-body" if nonascii else "")
+    # the source is a binary file object of any kind: in memory, a buffered or an unbuffered real file
+    kind = case.get("source") or ["memory", "memory", "buffered-file", "unbuffered-file"][int(H.chash(data.hex())[-1], 16) % 4]
+    tmpf = None
     try:
-        h, body = parse_header(io.BytesIO(data))
+        if kind == "memory":
+            src = io.BytesIO(data)
+        else:
+            import tempfile
+
+            fd, tmpf = tempfile.mkstemp(prefix="verif_c05_")
+            os.write(fd, data)
+            os.close(fd)
+            src = open(tmpf, "rb") if kind == "buffered-file" else open(tmpf, "rb", buffering=0)
+        try:
+            h, body = parse_header(src)
+        finally:
+            src.close()
     except Exception as e:
-        return [(f"valid-file-rejected/{suffix}", f"{data!r}: {e!r}")]
+        return [(f"valid-file-rejected/{suffix}", f"{data[:300]!r} (source: {kind}): {e!r}")]
+    finally:
+        if tmpf:
+            os.unlink(tmpf)
     out = []
+    if kind != "memory":
+        suffix += "/" + kind
     fields = [f for f in vals if f != "COMPRESSION" or case.get("has_comp", True)]
     got = {f: str(getattr(h, f.lower())) for f in fields}
     want = {f: vals[f] for f in fields}
